@@ -429,6 +429,10 @@ pub struct Run {
 
 pub const MAX_ROUNDS: u64 = 400;
 
+/// Bumped at every host action / interpreter step of any run in this process. A watchdog that
+/// wants to know whether ONE step is stuck (and not whether a scenario is long) reads it.
+pub static HEARTBEAT: std::sync::atomic::AtomicU64 = std::sync::atomic::AtomicU64::new(0);
+
 impl Run {
     /// ids of orders this run reported and the host has not answered
     pub fn unanswered_ids(&self) -> Vec<u64> {
@@ -768,6 +772,7 @@ impl Run {
 
     /// Perform the next host action / interpreter step. Returns false when the run is over.
     pub fn advance(&mut self, h: &mut Host) -> bool {
+        HEARTBEAT.fetch_add(1, std::sync::atomic::Ordering::Relaxed);
         if self.finished {
             return false;
         }
